@@ -1,3 +1,4 @@
+from fractions import Fraction
 from typing import Any
 from statham.schema.exceptions import ValidationError
 from statham.schema.validation.base import Validator
@@ -60,10 +61,14 @@ class MultipleOf(Validator):
 
     def _validate(self, value: Any):
         multiple_of = self.params["multipleOf"]
-        if isinstance(multiple_of, float):
-            quotient = value / multiple_of
-            if int(quotient) != quotient:
-                raise ValidationError
-            return
-        if value % multiple_of:
+        try:
+            if isinstance(multiple_of, float):
+                quotient = value / multiple_of
+                is_multiple = int(quotient) == quotient
+            else:
+                is_multiple = not value % multiple_of
+        except OverflowError:
+            # Outside the float range: decide with exact arithmetic.
+            is_multiple = not Fraction(value) % Fraction(multiple_of)
+        if not is_multiple:
             raise ValidationError
